@@ -5,6 +5,7 @@ import (
 	"go/ast"
 	"go/token"
 	"go/types"
+	"strings"
 
 	"golang.org/x/tools/go/cfg"
 )
@@ -345,24 +346,63 @@ func init() {
 		Run:  ruleResetComplete})
 }
 
-func clearedFields(fn *FuncInfo) map[string]bool {
+// clearedFields: the Server registries a function empties — x.Clear() on a field, a field re-assigned a fresh
+// container (a constructor call or a composite literal), directly or in a method of Server it calls.
+func clearedFields(c *Ctx, fn *FuncInfo, depth int, seen map[*types.Func]bool) map[string]bool {
 	out := map[string]bool{}
+	if fn == nil || seen[fn.Obj] || depth < 0 {
+		return out
+	}
+	seen[fn.Obj] = true
 	info := fn.Info()
 	ast.Inspect(fn.Decl.Body, func(n ast.Node) bool {
-		call, ok := n.(*ast.CallExpr)
-		if !ok {
-			return true
-		}
-		se, ok := ast.Unparen(call.Fun).(*ast.SelectorExpr)
-		if !ok || se.Sel.Name != "Clear" {
-			return true
-		}
-		if f := selField(info, se.X); f != nil {
-			out[f.Name()] = true
+		switch x := n.(type) {
+		case *ast.AssignStmt:
+			if len(x.Lhs) != len(x.Rhs) {
+				return true
+			}
+			for i, l := range x.Lhs {
+				f := selField(info, l)
+				if f == nil || !isServerField(c, f) {
+					continue
+				}
+				switch r := ast.Unparen(x.Rhs[i]).(type) {
+				case *ast.CompositeLit:
+					out[f.Name()] = true
+				case *ast.UnaryExpr:
+					if _, ok := ast.Unparen(r.X).(*ast.CompositeLit); ok {
+						out[f.Name()] = true
+					}
+				case *ast.CallExpr:
+					if g := callee(info, r); g != nil && g.Pkg() != nil && !strings.HasPrefix(g.Pkg().Path(), modPath) && strings.HasPrefix(g.Name(), "New") {
+						out[f.Name()] = true
+					}
+				}
+			}
+		case *ast.CallExpr:
+			se, ok := ast.Unparen(x.Fun).(*ast.SelectorExpr)
+			if !ok {
+				return true
+			}
+			if se.Sel.Name == "Clear" {
+				if f := selField(info, se.X); f != nil {
+					out[f.Name()] = true
+				}
+				return true
+			}
+			if g := callee(info, x); g != nil && isMethod(g, modPath+"/internal/server", "Server", g.Name()) {
+				for k := range clearedFields(c, c.FuncOf(g), depth-1, seen) {
+					out[k] = true
+				}
+			}
 		}
 		return true
 	})
 	return out
+}
+
+func isServerField(c *Ctx, f *types.Var) bool {
+	return f != nil && c.Field("internal/server", "Server", f.Name()) == f
 }
 
 func ruleResetComplete(c *Ctx) {
@@ -372,7 +412,7 @@ func ruleResetComplete(c *Ctx) {
 		c.und("anchors", 0, "Server.reset or cmdFLUSHDB not found")
 		return
 	}
-	a, b := clearedFields(rs), clearedFields(fl)
+	a, b := clearedFields(c, rs, 3, map[*types.Func]bool{}), clearedFields(c, fl, 3, map[*types.Func]bool{})
 	if len(b) < 5 {
 		c.und("flushdb-clears", fl.Decl.Pos(), "fewer than 5 registries cleared by FLUSHDB: extraction has gone vacuous")
 		return
